@@ -43,6 +43,17 @@ def run(seed, n_traces, length):
         rng = Rng(seed, "purity|%d" % k)
         g, desc = G.make_graph(rng, noise=rng.choice([0.05, 0.5]), well_posed=True, fix=rng.choice(["first", "random"]))
         g_ref = G.rebuild(desc)
+        # information matrices as users build them (np.linalg.inv(cov), R @ D @ R.T): symmetric only up to rounding
+        if rng.random() < 0.5:
+            res["ops"]["info-symmetric-up-to-rounding"] = res["ops"].get("info-symmetric-up-to-rounding", 0) + 1
+            for ei in range(len(g._edges)):
+                m = np.asarray(g._edges[ei].information)
+                if m.ndim == 2 and m.shape[0] > 1 and rng.random() < 0.7:
+                    i, j = rng.sample(range(m.shape[0]), 2)
+                    up = np.inf if rng.random() < 0.5 else -np.inf
+                    for gg in (g, g_ref):
+                        mm = gg._edges[ei].information
+                        mm[i, j] = np.nextafter(mm[i, j], up)
         trace = []
         for step in range(length):
             op = rng.choice(OPS)
